@@ -1,0 +1,21 @@
+//go:build verif
+
+package verifapi
+
+import "github.com/deepteams/webp/internal/lossy"
+
+// Re-exports for the VP8 key-frame decoder (property C04).
+
+// VP8DecodeFrame is lossy.DecodeFrame with the planes copied out and cropped
+// to width x height (chroma ceil(w/2) x ceil(h/2)), rows packed.
+func VP8DecodeFrame(data []byte) (width, height int, y, u, v []byte, err error) {
+	return lossy.VerifDecodeFrame(data)
+}
+
+// VP8ErrorClass maps an error of lossy.DecodeFrame to "header", "truncated"
+// or "toolarge".
+func VP8ErrorClass(err error) string { return lossy.VerifDecodeErrClass(err) }
+
+// VP8Tables returns the constant tables of the VP8 decoder, see
+// lossy.VerifVP8Tables.
+func VP8Tables() map[string][]int { return lossy.VerifVP8Tables() }
